@@ -41,6 +41,9 @@ pub fn slot_sx(s: Slot) -> Sx {
             if r == n.to_string() && n < (1 << 30) - 1 { return lst(vec![sym("f"), num(n)]); }
         }
     }
+    if let Some(r) = t.strip_prefix('x') {
+        if let Ok(n) = r.parse::<u64>() { if r == n.to_string() && n < 16 { return lst(vec![sym("n"), num(n)]); } }
+    }
     lst(vec![sym("s"), crate::c17::text_sx(t)])
 }
 pub fn dec_slot(e: &Sx) -> Slot {
@@ -48,8 +51,15 @@ pub fn dec_slot(e: &Sx) -> Slot {
         Sx::Num(n) => Slot::numeric(*n as u32),
         Sx::Lst(l) if l[0].as_sym() == "f" => Slot::named(&format!("f{}", l[1].as_num())),
         Sx::Lst(l) if l[0].as_sym() == "s" => Slot::named(&crate::c17::dec_text(&l[1])),
+        // (n k): the k-th textual name; `intern_names` makes sure "x<k>" has table index k in this thread
+        Sx::Lst(l) if l[0].as_sym() == "n" => { intern_names(); Slot::named(&format!("x{}", l[1].as_num())) }
         _ => panic!("harness: bad slot {}", e),
     }
+}
+thread_local! { static INTERNED: std::cell::Cell<bool> = std::cell::Cell::new(false); }
+/// intern x0..x15 in order, once per thread, before any other textual name
+pub fn intern_names() {
+    INTERNED.with(|c| { if !c.get() { c.set(true); for k in 0..16 { let _ = Slot::named(&format!("x{}", k)); } } });
 }
 pub fn map_sx(m: &SlotMap) -> Sx {
     let mut v = vec![sym("m")];
